@@ -127,46 +127,52 @@ def parseComment (s : Str) : Py (Str × Str) :=
     | none => .error .valueError
     | some i => .ok (s.take (i + 1), s.drop (i + 1))
   else if slashStar.isPrefixOf s then
-    match findSub starSlash s with
+    -- `sql_segment.index("*/", 2)`: the closing "*/" is looked for after the opening "/*" (41d65d3)
+    match findSub starSlash (s.drop 2) with
     | none => .error .valueError
-    | some i => .ok (s.take (i + 2), s.drop (i + 2))
+    | some i => .ok (s.take (i + 4), s.drop (i + 4))
   else .error .attributeError          -- `sql_segment.number` in the error branch
 
 /-- loop of `get_index_of_closing_parenthesis`; the list is `string[index:]`, `prev` is
 `string[index-1]`, `idx` the index relative to the opening parenthesis.
-`cm`: 0 none, 1 `--`, 2 `/*`;  `lit`: 0 none, 1 `'`, 2 `"`, 3 back-tick, 4 `[`…`]`. -/
-def closeGo (prev : Char) (emb cm lit idx : Nat) : Str → Py Nat
+`cm`: 0 none, 1 `--`, 2 `/*`;  `cst`: `comment_start_index` (relative to the opening parenthesis like
+`idx`; only read while `cm = 2`, and every `cm := 2` sets it, so its initial value never matters);
+`lit`: 0 none, 1 `'`, 2 `"`, 3 back-tick, 4 `[`…`]`.
+A `/*` comment ends at a "/" preceded by a "*" that is not the "*" of the opening "/*"
+(`index - 1 > comment_start_index + 1`, 41d65d3). -/
+def closeGo (prev : Char) (emb cm cst lit idx : Nat) : Str → Py Nat
   | [] => if prev == ')' then .ok (idx - 1) else .error .parseError
   | c :: cs =>
       if cm ≠ 0 then
-        if (cm == 1 && c == '\n') || (cm == 2 && c == '/' && prev == '*') then closeGo c emb 0 lit (idx + 1) cs
-        else closeGo c emb cm lit (idx + 1) cs
+        if (cm == 1 && c == '\n') || (cm == 2 && c == '/' && prev == '*' && decide (idx - 1 > cst + 1)) then
+          closeGo c emb 0 cst lit (idx + 1) cs
+        else closeGo c emb cm cst lit (idx + 1) cs
       else if lit ≠ 0 then
         if (lit == 1 && c == '\'') || (lit == 2 && c == '"') || (lit == 3 && c == '`') || (lit == 4 && c == ']') then
-          closeGo c emb cm 0 (idx + 1) cs
-        else closeGo c emb cm lit (idx + 1) cs
-      else if c == '(' then closeGo c (emb + 1) cm lit (idx + 1) cs
+          closeGo c emb cm cst 0 (idx + 1) cs
+        else closeGo c emb cm cst lit (idx + 1) cs
+      else if c == '(' then closeGo c (emb + 1) cm cst lit (idx + 1) cs
       else if c == ')' then
-        if emb == 0 then .ok idx else closeGo c (emb - 1) cm lit (idx + 1) cs
+        if emb == 0 then .ok idx else closeGo c (emb - 1) cm cst lit (idx + 1) cs
       else if c == '-' then
         match cs with
         | [] => .error .indexError
-        | d :: _ => closeGo c emb (if d == '-' then 1 else 0) lit (idx + 1) cs
+        | d :: _ => closeGo c emb (if d == '-' then 1 else 0) cst lit (idx + 1) cs
       else if c == '/' then
         match cs with
         | [] => .error .indexError
-        | d :: _ => if d != '*' then .error .parseError else closeGo c emb 2 lit (idx + 1) cs
-      else if c == '\'' then closeGo c emb cm 1 (idx + 1) cs
-      else if c == '"' then closeGo c emb cm 2 (idx + 1) cs
-      else if c == '`' then closeGo c emb cm 3 (idx + 1) cs
-      else if c == '[' then closeGo c emb cm 4 (idx + 1) cs
-      else closeGo c emb cm lit (idx + 1) cs
+        | d :: _ => if d != '*' then .error .parseError else closeGo c emb 2 idx lit (idx + 1) cs
+      else if c == '\'' then closeGo c emb cm cst 1 (idx + 1) cs
+      else if c == '"' then closeGo c emb cm cst 2 (idx + 1) cs
+      else if c == '`' then closeGo c emb cm cst 3 (idx + 1) cs
+      else if c == '[' then closeGo c emb cm cst 4 (idx + 1) cs
+      else closeGo c emb cm cst lit (idx + 1) cs
 
 /-- `get_index_of_closing_parenthesis(string, off)` with the argument `string[off:]`; the result
 is relative to `off`. -/
 def closingParen : Str → Py Nat
   | [] => .error .indexError
-  | c :: cs => if c == '(' then closeGo '(' 0 0 0 1 cs else .error .valueError
+  | c :: cs => if c == '(' then closeGo '(' 0 0 0 0 1 cs else .error .valueError
 
 /-! ### constants.py -/
 
@@ -284,8 +290,8 @@ def isPreface (prefaces : List Str) (seg : Str) : Py Bool :=
             if w then isPreface ps seg else .ok true
       else isPreface ps seg
 
-/-- regex `^Q(.*?)Q'` on `Q :: tl`: length of the match (None when no closing character comes
-before a newline / the end) -/
+/-- regex `^\[(.*?)\]` on `[ :: tl` (bracket names): length of the match (None when no closing
+character comes before a newline / the end) -/
 def quotedMatchLen (close : Char) : Str → Option Nat
   | [] => none
   | c :: cs =>
@@ -293,25 +299,59 @@ def quotedMatchLen (close : Char) : Str → Option Nat
       else if c == '\n' then none
       else (quotedMatchLen close cs).map (· + 1)
 
-def openQuoteClose (c : Char) : Option Char :=
-  if c == '`' then some '`' else if c == '[' then some ']' else if c == '\'' then some '\''
-  else if c == '"' then some '"' else none
+/-- regex `^Q((?:[^Q]|QQ)*)Q` on `Q :: tl` for a quote character `Q` (687226d), given `tl`:
+(`group(1)`, length of the match).  The group is a sequence of units — one character other than `Q`
+(a newline too: it is a negated class, not `.`), or `QQ` — and the repetition is greedy: a `Q`
+followed by another `Q` continues the name; a `Q` followed by anything else (or nothing) closes it.
+When the text ends inside the name the regex engine backtracks unit by unit; the only unit whose
+first character can serve as the closing `Q` is a `QQ`, so the match then ends at the first
+character of the last `QQ` (`"a""` → `"a"`, `"""` → `""`); without any `QQ` there is no match. -/
+def quotedGroup (q : Char) : Str → Option (Str × Nat)
+  | [] => none
+  | [c] => if c == q then some ([], 2) else none
+  | c :: d :: ds =>
+      if c == q then
+        if d == q then
+          match quotedGroup q ds with
+          | some (g, n) => some (q :: q :: g, n + 2)
+          | none => some ([], 2)
+        else some ([], 2)
+      else (quotedGroup q (d :: ds)).map fun (g, n) => (c :: g, n + 1)
 
-def quoteStripSet (c : Char) : Char → Bool :=
-  if c == '[' then fun x => x == '[' || x == ']' else fun x => x == c
+/-- `s.replace(QQ, Q)`: left to right, non-overlapping -/
+def replaceDouble (q : Char) : Str → Str
+  | [] => []
+  | [c] => [c]
+  | c :: d :: rest =>
+      if c == q && d == q then q :: replaceDouble q rest else c :: replaceDouble q (d :: rest)
+
+/-- the three quote characters whose doubling stands for the character itself -/
+def isQuoteChar (c : Char) : Bool := c == '`' || c == '\'' || c == '"'
+
+def bracketStripSet : Char → Bool := fun x => x == '[' || x == ']'
 
 def spaceStr : Str := [' ']
+
+/-- the name and the length of the match of a name that starts with a quote character or "[";
+`none` = the text does not start with one; `some none` = the regex does not match -/
+def quotedName (t : Str) : Option (Option (Str × Nat)) :=
+  match t with
+  | [] => none
+  | c :: tl =>
+      if c == '[' then
+        some ((quotedMatchLen ']' tl).map fun n => (stripSet bracketStripSet (t.take n), n))
+      else if isQuoteChar c then
+        some ((quotedGroup c tl).map fun (g, n) => (replaceDouble c g, n))
+      else none
 
 /-- `_get_column_name_and_remaining_sql` -/
 def columnNameAndRest (t : Str) : Py (Str × Str) :=
   match t with
   | [] => .error .indexError
-  | c :: tl =>
-      match openQuoteClose c with
-      | some cl =>
-          match quotedMatchLen cl tl with
-          | none => .error .parseError
-          | some n => .ok (stripSet (quoteStripSet c) (t.take n), strip (t.drop n))
+  | _ :: _ =>
+      match quotedName t with
+      | some none => .error .parseError
+      | some (some (name, n)) => .ok (name, strip (t.drop n))
       | none =>
           -- `match(r"\S+", column_text)`: the leading run of non-whitespace characters
           let n := (t.takeWhile fun x => !isSpace x).length
@@ -353,9 +393,10 @@ def stripColumnComments : Nat → Str → Py Str
   | _ + 1, [] => .ok []
   | fuel + 1, c :: tl =>
       if c == '/' then
-        match findSub starSlash (c :: tl) with
+        -- `column_text.index("*/", character_index + 2)` (41d65d3)
+        match findSub starSlash (tl.drop 1) with
         | none => .error .valueError
-        | some i => (stripColumnComments fuel ((c :: tl).drop (i + 2))).map (' ' :: ·)
+        | some i => (stripColumnComments fuel (tl.drop (i + 3))).map (' ' :: ·)
       else if c == '-' then
         match tl with
         | [] => .error .indexError
@@ -436,12 +477,10 @@ def unquotedName (acc : Str) : Str → Py (Str × Str)
 def rowNameAndRest (t : Str) : Py (Str × Str) :=
   match t with
   | [] => .error .indexError
-  | c :: tl =>
-      match openQuoteClose c with
-      | some cl =>
-          match quotedMatchLen cl tl with
-          | none => .error .parseError
-          | some n => .ok (stripSet (quoteStripSet c) (t.take n), t.drop n)
+  | _ :: _ =>
+      match quotedName t with
+      | some none => .error .parseError
+      | some (some (name, n)) => .ok (name, t.drop n)
       | none => unquotedName [] t
 
 /-- `while s.startswith(("--", "/*")): comment, s = parse_comment(s); …; s = s.lstrip()`;
@@ -514,9 +553,10 @@ def scanJump (rest : Str) : Py Nat :=
         | [] => .error .indexError
         | d :: _ =>
             if d != '*' then .error .parseError
-            else match findSub starSlash rest with
+            -- `definitions.index("*/", character_index + 2) + 1` (41d65d3)
+            else match findSub starSlash (rest.drop 2) with
               | none => .error .valueError
-              | some i => .ok (i + 1)
+              | some i => .ok (i + 3)
       else if ch == '[' then
         match findSub [']'] tl with
         | none => .error .valueError
